@@ -205,20 +205,26 @@ def CParam.toks (p : CParam) : List Tok :=
   | none => [p.val.tok]
   | some k => [.id k, .colon, p.val.tok]
 
+/-- `(',' parameter)*` -/
+def paramsTail (ps : List CParam) : List Tok := ps.flatMap (fun q => .comma :: q.toks)
+
 /-- comma-separated, possibly empty -/
 def paramsToks : List CParam → List Tok
   | [] => []
-  | [p] => p.toks
-  | p :: q :: ps => p.toks ++ .comma :: paramsToks (q :: ps)
+  | p :: ps => p.toks ++ paramsTail ps
 
 def CFn.toks (f : CFn) : List Tok :=
   (if f.neg then [.bang] else []) ++ (.id f.name :: .lparen :: (paramsToks f.params ++ [.rparen]))
 
-def fnsToks (first : CFn) (rest : List CFn) : List Tok :=
-  first.toks ++ rest.flatMap (fun f => .andand :: f.toks)
+/-- `('&&' functionPrototype)*` -/
+def fnsTail (fs : List CFn) : List Tok := fs.flatMap (fun f => .andand :: f.toks)
 
-def litsToks (first : Lit) (rest : List Lit) : List Tok :=
-  first.tok :: rest.flatMap (fun l => [.comma, l.tok])
+def fnsToks (first : CFn) (rest : List CFn) : List Tok := first.toks ++ fnsTail rest
+
+/-- `(',' literal)*` -/
+def litsTail (ls : List Lit) : List Tok := ls.flatMap (fun l => [.comma, l.tok])
+
+def litsToks (first : Lit) (rest : List Lit) : List Tok := first.tok :: litsTail rest
 
 def COut.toks : COut → List Tok
   | .id s => [.id s] | .nonId s => [.nonId s] | .fn f => f.toks
